@@ -36,16 +36,19 @@ type VerifC12Recorder interface {
 
 // VerifC12Relay returns a TimingWheel value that forwards every request to inner.
 func VerifC12Relay(inner *TimingWheel, rec VerifC12Recorder) *TimingWheel {
+	// channels of whatever element types the wheel uses today (a request type may be refactored)
 	proxy := &TimingWheel{
-		setChannel:    make(chan timingEntry),
-		moveChannel:   make(chan baseEntry),
-		removeChannel: make(chan any),
-		drainChannel:  make(chan func(key, value any)),
+		setChannel:    verifC12ChanLike(inner.setChannel),
+		moveChannel:   verifC12ChanLike(inner.moveChannel),
+		removeChannel: verifC12ChanLike(inner.removeChannel),
+		drainChannel:  verifC12ChanLike(inner.drainChannel),
 		stopChannel:   inner.stopChannel,
 	}
 	go verifC12RelayLoop(proxy, inner, rec)
 	return proxy
 }
+
+func verifC12ChanLike[T any](chan T) chan T { return make(chan T) }
 
 func verifC12RelayLoop(proxy, inner *TimingWheel, rec VerifC12Recorder) {
 	for {
